@@ -186,6 +186,10 @@ example : (view (cowRun cowInit [.begin true, .put 1 5, .put 2 6, .commit, .begi
     ((cowRun cowInit [.begin true, .put 1 5, .put 2 6, .commit, .begin false, .put 1 7, .flip [2] 9, .commit]).versions.getLast?.getD []))
     = [(1, 7), (2, 9)] := by decide
 
+-- freezing does not look at what a node holds: a node that is empty at commit (content 0 — no rdatasets) is frozen too
+example : let s := cowRun cowInit [.begin true, .put 1 5, .put 2 0, .commit]
+    (s.versions.getLast?.getD []).all (fun p => (s.heap[p.2]?.map (·.frozen)) == some true) = true := by decide
+
 /-! ## the hypotheses are satisfiable; the clauses are not vacuous -/
 
 -- a reader pins version 1 across two commits under the default policy; closing it prunes down to the newest
